@@ -464,6 +464,16 @@ func (s *sim) offer() {
 		}
 		r.Count("probe_anchor_with_unconfirmed_parent")
 	}
+	if (kind == kindSecondLevelTimeout || kind == kindSecondLevelSuccess) && r.Draw(3) == 1 {
+		// anchor channels without zero-fee HTLC transactions: the pre-signed
+		// second-level transaction pays a fee of its own, the HTLC output is
+		// worth more than the output it commits to (drawn last: older tapes
+		// yield no surplus)
+		if sp := int64(1 + r.Draw(6000)); sp < value-1000 {
+			reqValue = value - sp
+			r.Count("probe_required_output_below_input_value")
+		}
+	}
 	inp, reqOut, err := w.kr.buildInput(kind, idx, value, hint, csv, cltv, reqValue)
 	if err != nil {
 		r.Harness("build input: %v", err)
